@@ -7,7 +7,9 @@ ASSUMPTIONS = [
     'the reference ECU is Uds/Spec/Ecu.lean (written from ISO 14229-1, independent of the library): it stores what it is sent; WriteDataByIdentifier needs at least one data byte, '
     'ReadDataByIdentifier of a record never written is NRC 0x31, a write whose data length differs from the announced size is NRC 0x13, a block with the wrong sequence counter NRC 0x73',
     'the block sequence counter of transfer_data is chosen by the caller (the library takes it as an argument): the harness counts 1, 2, ... 0xFF, 0x00, 0x01, ...',
-    'DID codecs: encode/decode are user code, identity on the raw bytes in the model; values are compared as raw bytes',
+    'DID codecs in the history suite: encode/decode are user code, identity on the raw bytes in the model; values are compared as raw bytes',
+    "the library's own codecs (DidCodec(packstr) incl. str entries of data_identifiers, AsciiCodec) are modelled in Uds/Model/DidCodec.lean together with the integer subset of Python's struct "
+    "(standard library, modelled: sizes, native alignment of x86-64 Linux, two's complement, range check); formats with other codes (f d e s p c ? n N P, zero counts) are outside the model",
 ]
 RULE = ('history suite: random histories (quick 300 x 25 calls, every 25th one 450 calls long) over one long-lived client and one ECU: write/read data identifiers (fixed-length, read-all and default codecs, '
         'values incl. all-zero), write/read memory (all 8 address and size widths, explicit / configured / automatic, the same MemoryLocation object reused and re-pointed), downloads '
@@ -15,7 +17,7 @@ RULE = ('history suite: random histories (quick 300 x 25 calls, every 25th one 4
         '(set_config of data_identifiers, server_address_format, server_memorysize_format, tolerate_zero_padding) and failing calls (unknown identifiers, wrong lengths, never-written '
         'records, wrong sequence counters, exits without transfer). Every frame the real client sends goes to the Lean ECU behind the line protocol; the same call goes to the Lean '
         'client model with its own ECU copy. Compared per call: outcome + decoded data; at the end: both ECU states. P_spec on the implementation: a Python shadow store updated only by '
-        'successful writes must equal every successful read and the final ECU state. distinct = distinct (history seed, step); non-trivial = the call reached the ECU')
+        'successful writes must equal every successful read and the final ECU state. distinct = distinct (history seed, step); non-trivial = the call reached the ECU. codec suite: random pack strings (6 byte-order prefixes, counts, pad bytes, 10 integer codes) x boundary values / wrong counts / scalars, AsciiCodec texts incl. non-ASCII and wrong lengths: encode through WriteDataByIdentifier.make_request, decode through ReadDataByIdentifier.interpret_response, len(); model vs implementation, and decode(encode(v)) == v on the implementation')
 
 W = (8, 16, 24, 32, 40, 48, 56, 64)
 
@@ -499,4 +501,156 @@ def suite_history(ctx):
     return s
 
 
-SUITES = [suite_history]
+# ----------------------------------------------------------------------------------------------
+# the library's own codecs: DidCodec(packstr) (a str entry of data_identifiers) and AsciiCodec
+# ----------------------------------------------------------------------------------------------
+
+CODES = 'xbBhHiIlLqQ'
+STD = {'b': 1, 'B': 1, 'h': 2, 'H': 2, 'i': 4, 'I': 4, 'l': 4, 'L': 4, 'q': 8, 'Q': 8}
+NAT = dict(STD, l=8, L=8)
+
+
+def rand_packstr(rng):
+    pre = rng.choice(['', '', '@', '=', '<', '>', '>', '!'])
+    items, toks = [], []
+    for _ in range(rng.choice([1, 1, 2, 2, 3, 4])):
+        c = rng.choice(CODES)
+        cnt = rng.choice(['', '', '', '1', '2', '3'])
+        items.append(cnt + c)
+        toks += [c] * (int(cnt) if cnt else 1)
+    sep = rng.choice(['', '', '', ' '])
+    if rng.random() < 0.04:
+        bad = rng.choice(['f', 's', '?', 'd', 'c', 'p', '0H', 'e', 'n', 'P'])      # outside the modelled subset
+        items.append(bad)
+        return pre + sep.join(items), None, pre
+    return pre + sep.join(items), toks, pre
+
+
+def rand_int_for(rng, code, pre):
+    w = (NAT if pre in ('', '@') else STD)[code]
+    if code.islower():
+        lo, hi = -(1 << (8 * w - 1)), (1 << (8 * w - 1)) - 1
+    else:
+        lo, hi = 0, (1 << (8 * w)) - 1
+    return rng.choice([lo, hi, 0, 1, -1, lo - 1, hi + 1, hi // 2 + 1, rng.randint(lo, hi), rng.randint(lo, hi), rng.randint(lo, hi), 0x80, 0xFF, 0x100, 0x8000, 0xFFFF])
+
+
+def val_str(v):
+    if isinstance(v, str):
+        return 's' + (','.join(str(ord(c)) for c in v) or '-')
+    if isinstance(v, tuple):
+        return 't' + (','.join(str(x) for x in v) or '-')
+    return 'o%d' % v
+
+
+def codec_str(c):
+    if isinstance(c, str):
+        return 'p' + ''.join('%02x' % ord(ch) for ch in c)
+    return 'a%d' % c.string_len
+
+
+def suite_codec(ctx):
+    """DidCodec(packstr) / AsciiCodec: encode through WriteDataByIdentifier.make_request (tuple spreading included), decode through
+    ReadDataByIdentifier.interpret_response, len(); model vs implementation, and decode(encode(v)) == v on the implementation"""
+    import struct
+    from udsoncan import AsciiCodec, Response, services
+    from udsoncan.common.dids import make_did_codec_from_definition
+    from ..clientlib import exc_tag
+    s = Suite('codec')
+    rng = ctx.rng
+    n = ctx.n(6000, 120000)
+    cases = []           # (kind, codec definition, argument)
+    for i in range(n):
+        if rng.random() < 0.15:
+            k = rng.choice([0, 1, 2, 3, 5, 17])
+            c = AsciiCodec(k)
+            ln = rng.choice([k, k, k, k, k + 1, max(0, k - 1)])
+            txt = ''.join(chr(rng.choice([rng.randint(0x20, 0x7E), rng.randint(0, 0x7F), 0x7F, 0x80, 0xE9, 0x100]) if rng.random() < 0.15 else rng.randint(0x20, 0x7E)) for _ in range(ln))
+            cases.append(('enc', c, txt))
+            raw = bytes(rng.choice([rng.randint(0x20, 0x7E), 0x7F, 0x80, 0xFF, 0]) if rng.random() < 0.15 else rng.randint(0x20, 0x7E) for _ in range(ln))
+            cases.append(('dec', c, raw))
+            cases.append(('len', c, None))
+            continue
+        fmt, toks, pre = rand_packstr(rng)
+        if toks is None:
+            cases.append(('len', fmt, None))
+            continue
+        ints = [t for t in toks if t != 'x']
+        vals = [rand_int_for(rng, t, pre) for t in ints]
+        r = rng.random()
+        if r < 0.06:
+            vals = vals[:-1] if vals else [1]                # wrong number of values
+        elif r < 0.10:
+            vals = vals + [0]
+        v = tuple(vals)
+        if len(vals) == 1 and rng.random() < 0.5:
+            v = vals[0]                                      # a scalar for a one-item format
+        cases.append(('enc', fmt, v))
+        try:
+            size = struct.calcsize(fmt)
+        except struct.error:
+            size = 0
+        ln = rng.choice([size, size, size, size + 1, max(0, size - 1)])
+        cases.append(('dec', fmt, bytes(rng.choice([0, 0xFF, 0x80, 0x7F, rng.randrange(256)]) for _ in range(ln))))
+        cases.append(('len', fmt, None))
+    lines = []
+    for kind, c, arg in cases:
+        if kind == 'enc':
+            lines.append('didc.enc c=%s v=%s' % (codec_str(c), val_str(arg)))
+        elif kind == 'dec':
+            lines.append('didc.dec c=%s d=%s' % (codec_str(c), hx(arg)))
+        else:
+            lines.append('didc.len c=%s' % codec_str(c))
+    model = core.drv_batch(lines)
+    DID = 0x1234
+    for (kind, c, arg), line, m in zip(cases, lines, model):
+        s.evaluations += 1
+        s.distinct.add(line)
+        label = 'ascii' if not isinstance(c, str) else ('native' if c[:1] not in '=<>!' else 'standard')
+        try:
+            if kind == 'enc':
+                req = services.WriteDataByIdentifier.make_request(DID, arg, didconfig={DID: c})
+                pl = req.get_payload()
+                assert pl[:3] == bytes([0x2E, 0x12, 0x34])
+                got = 'ok ' + hx(pl[3:])
+            elif kind == 'dec':
+                # through the service when the length fits (that is the path a reply takes), else the codec itself
+                codec = make_did_codec_from_definition(c)
+                if len(arg) == len(codec) and len(arg) > 0:
+                    resp = Response(services.ReadDataByIdentifier, Response.Code.PositiveResponse, data=bytes([0x12, 0x34]) + arg)
+                    try:
+                        val = services.ReadDataByIdentifier.interpret_response(resp, [DID], {DID: c}).service_data.values[DID]
+                    except Exception as e:                        # a decode error is reported as an invalid response: look at its cause through the codec
+                        val = codec.decode(arg)
+                        raise AssertionError('service failed (%s) where the codec decodes' % type(e).__name__)
+                else:
+                    val = codec.decode(arg)
+                got = 'ok ' + val_str(val)
+            else:
+                got = 'ok %d' % len(make_did_codec_from_definition(c))
+        except struct.error:
+            got = 'err struct.error'
+        except ValueError:
+            got = 'err ValueError'
+        except AssertionError:
+            raise
+        if m == 'unsupported':
+            s.count('unsupported-format')
+            continue
+        s.count('%s:%s:%s' % (label, kind, got.split(' ')[0] if got.startswith('ok') else got))
+        if m != got:
+            s.diverge(line, m, got)
+            continue
+        # P_spec on the implementation: what was encoded decodes back to the value (a scalar as the one-element tuple)
+        if kind == 'enc' and got.startswith('ok'):
+            codec = make_did_codec_from_definition(c)
+            raw = bytes.fromhex(got[3:]) if got[3:] != '-' else b''
+            back = codec.decode(raw)
+            want = arg if isinstance(arg, (tuple, str)) else (arg,)
+            if back != want or len(raw) != len(codec):
+                s.fail({'site': 'DidCodec', 'input': line, 'class': 'decode(encode(v)) != v', 'observed': '%r (%d bytes, len(codec) = %d)' % (back, len(raw), len(codec)), 'required': repr(want)})
+    s.notes.append('%d codec cases; struct itself is the standard library (modelled, see Uds/Model/DidCodec.lean)' % len(cases))
+    return s
+
+
+SUITES = [suite_history, suite_codec]
